@@ -555,7 +555,8 @@ def rotation_case(rng, sess: Session):
     with tmpdir("c16g_") as d:
         base = "t1.jsonl"
         path = os.path.join(d, base)
-        backups = rng.randint(1, 5)
+        # also generation numbers with two and three digits (numeric, not lexicographic, order: .9 < .10 < .11, .99 < .100)
+        backups = rng.choice([1, 2, 3, 4, 5, 1, 2, 3, 4, 5, 9, 10, 11, 12, 15, 101])
         uid = [0]
 
         def fresh():
@@ -563,9 +564,12 @@ def rotation_case(rng, sess: Session):
             return f"content-{uid[0]}\n"
 
         # pre-existing generations with gaps and beyond N
+        dense = rng.random() < 0.5
         for k in range(1, backups + 3):
-            if rng.random() < 0.5:
+            if rng.random() < (0.5 if backups <= 15 or dense else 0.05) or (backups > 15 and 97 <= k <= 101 and rng.random() < 0.7):
                 open(f"{path}.{k}", "w").write(fresh())
+        if backups >= 9:
+            sess.count("rotation_histories_with_multi_digit_generations")
         history = []
         for rnd in range(rng.randint(1, 12)):
             if rng.random() < 0.8:
@@ -1031,6 +1035,7 @@ def main(tier: str, seed: int):
     sess.require("fresh_directory_first_appends", 30)
     sess.require("rewrites_under_short_writes", 8)
     sess.require("scripted_rotations", 10)
+    sess.require("rotation_histories_with_multi_digit_generations", 8)
     sess.require("capture_histories", 100)
     sess.require("nested_captures", 50)
     sess.finish()
